@@ -708,3 +708,105 @@ func TestC06Nested(t *testing.T) {
 		}
 	})
 }
+
+// aliasCase: a selection whose selected operand is a shared number that another
+// operand of the same formula feeds to an operator or builtin.
+type aliasCase struct {
+	Sel  string `json:"sel"`  // selection form with X for the shared number and U for the expression that uses it
+	Use  string `json:"use"`  // U with X for the shared number
+	Kind string `json:"kind"` // how the shared number is held: local | dec | int | float
+	Val  string `json:"val"`  // its value
+}
+
+func (c aliasCase) text() string {
+	x := map[string]string{"local": "$x", "dec": "dec", "int": "iv", "float": "fv"}[c.Kind]
+	f := strings.ReplaceAll(strings.ReplaceAll(c.Sel, "U", strings.ReplaceAll(c.Use, "X", x)), "X", x)
+	f = "[" + f + ", " + x + "]"
+	if c.Kind == "local" {
+		f = "$x = " + c.Val + ", " + f
+	}
+	return f
+}
+
+func checkAlias(c aliasCase) string {
+	want, ok := ref.RatOf(strings.TrimPrefix(c.Val, "-"))
+	if !ok {
+		return "HARNESS: bad value " + c.Val
+	}
+	if strings.HasPrefix(c.Val, "-") {
+		want.Neg(want)
+	}
+	d := new(decimal.Big)
+	d.SetString(c.Val)
+	iv, _ := strconv.Atoi(c.Val)
+	fv, _ := strconv.ParseFloat(c.Val, 64)
+	data := map[string]interface{}{"dec": d, "iv": iv, "fv": fv}
+	text := c.text()
+	p := obs.Parse([]byte(text))
+	if !p.OK() {
+		return fmt.Sprintf("HARNESS: %q does not parse: %v", text, p.Err)
+	}
+	for round := 1; round <= 2; round++ { // the second evaluation sees what the first left in the caller's data
+		r := formula.NewRunner()
+		r.SetThis(data)
+		out := obs.Eval(r, context.Background(), p.Src.Expression)
+		arr, isArr := out.Val.([]interface{})
+		if out.Panic != nil || out.Err != nil || !isArr || len(arr) != 2 {
+			return fmt.Sprintf("%s -> %s", text, out)
+		}
+		for i, what := range []string{"the selected operand", "the shared number afterwards"} {
+			if g, isNum := obs.Rat(arr[i]); !isNum || g.Cmp(want) != 0 {
+				return fmt.Sprintf("%s (evaluation %d over the same data) = %s: %s is %s, want %s unchanged", text, round, out, what, obs.Show(arr[i]), c.Val)
+			}
+		}
+		delete(data, "$x")
+	}
+	if g, _ := obs.Rat(data["dec"]); g == nil || g.Cmp(want) != 0 && c.Kind == "dec" {
+		return fmt.Sprintf("%s changed the caller's number dec to %s", text, obs.Show(data["dec"]))
+	}
+	return ""
+}
+
+func init() {
+	h.RegisterReplay("c06-alias", func(raw json.RawMessage) string {
+		c, err := h.Decode[aliasCase](raw)
+		if err != nil {
+			return "bad replay: " + err.Error()
+		}
+		return checkAlias(c)
+	})
+}
+
+// TestC06Aliasing: "hands back the selected operand unchanged" - also when the
+// other operand computes with the very same number.
+func TestC06Aliasing(t *testing.T) {
+	sels := []string{"X || U", "X ?? U", "(U, true) && X", "[U] && X", "(U, X)", "true ? X : U", "false ? U : X", "U ? X : X", "(X || 0) ?? U", "[U, X][0] ?? X"}
+	uses := []string{"-X", "-(X ?? 0)", "-(X || 0)", "-(true ? X : 0)", "-max(X, X)", "-(0, X)", "+X", "~X", "!X", "!!X", "X + 1", "X * 2", "0 - X", "abs(X)", "round(X)", "floor(X)", "toInt(X)", "finite(X)", "toFloat(X)", "min(X, 1000)", "-($y = X)", "-toFloat(X)", "-finite(X)"}
+	run := h.Begin("C06", "aliasing", fmt.Sprintf("bounded-exhaustive: %d selection forms (||, ??, &&, comma, ?: either way) x %d expressions that compute with the same number as the selected operand (unary minus directly and through pass-through forms, ~, !, arithmetic, the numeric builtins) x the number held as a local, a caller's *decimal.Big, int and float64 x 4 values, each evaluated twice over the same data; oracle: the selected operand and the shared number read back afterwards are the original value, the caller's number is untouched; every case non-trivial", len(sels), len(uses)))
+	defer run.End(t)
+	var idx int64
+	for _, sel := range sels {
+		if sel == "[U, X][0] ?? X" {
+			continue // no index syntax in this language
+		}
+		for _, use := range uses {
+			for _, kind := range []string{"local", "dec", "int", "float"} {
+				for _, val := range []string{"3", "-7", "12", "1"} {
+					idx++
+					if !h.Mine(idx) || run.NViolations() >= 3 {
+						continue
+					}
+					c := aliasCase{Sel: sel, Use: use, Kind: kind, Val: val}
+					run.Count(true, kind)
+					if idx%211 == 0 {
+						run.Sample(kind, c.text())
+					}
+					if msg := checkAlias(c); msg != "" {
+						run.Fail("c06-alias", c, msg)
+					}
+				}
+			}
+		}
+	}
+	run.Exhaustive()
+}
